@@ -169,10 +169,10 @@ def _library_modules():
     """files of the library as built: everything imported by the root file, plus the driver and the audit"""
     root = os.path.join(LEAN_DIR, "SpowtdModel.lean")
     out = {root, os.path.join(LEAN_DIR, "Main.lean"), os.path.join(LEAN_DIR, "SpowtdModel", "Audit.lean"),
-           os.path.join(LEAN_DIR, "SchemaTie.lean")}
-    tie = os.path.join(LEAN_DIR, "SchemaTie")
-    if os.path.isdir(tie):
-        out |= {os.path.join(tie, f) for f in os.listdir(tie) if f.endswith(".lean")}
+           os.path.join(LEAN_DIR, "SchemaTie.lean"), os.path.join(LEAN_DIR, "SqlTie.lean")}
+    for tie in (os.path.join(LEAN_DIR, "SchemaTie"), os.path.join(LEAN_DIR, "SqlTie")):
+        if os.path.isdir(tie):
+            out |= {os.path.join(tie, f) for f in os.listdir(tie) if f.endswith(".lean")}
     with open(root) as fh:
         for line in fh:
             m = re.match(r"import\s+(SpowtdModel\.[\w.]+)", line)
@@ -241,7 +241,28 @@ def schema_tie(groups, timeout=600):
     return problems
 
 
-def audit(theorems, timeout=3000, schema_groups=()):
+def sql_tie(modules, timeout=600):
+    """Translator tie for the embedded SQL: regenerate lean/SqlTie/Generated.lean from <repo>/spowtd/*.py and
+    re-check the pinned statement lists of the given modules (lean/SqlTie/<Module>.lean, closed by `rfl`)."""
+    problems = []
+    if not modules:
+        return problems
+    tool = os.path.join(VERIF, "tools", "gen_sql.py")
+    p = subprocess.run([sys.executable, tool, REPO], capture_output=True, text=True, timeout=timeout)
+    if p.returncode != 0:
+        return ["SQL translator failed on %s/spowtd: %s" % (REPO, (p.stdout + p.stderr)[-400:])]
+    for m in modules:
+        name = "".join(w.capitalize() for w in m.split("_"))
+        p = subprocess.run(["lake", "build", "SqlTie." + name], cwd=LEAN_DIR, capture_output=True, text=True, timeout=timeout)
+        if p.returncode != 0:
+            d = subprocess.run([sys.executable, tool, "--diff", REPO], capture_output=True, text=True, timeout=timeout)
+            what = [ln for ln in d.stdout.split("\n") if ln.startswith(m + ".py")][:4]
+            problems.append("SQL tie: theorem Spowtd.SqlTie.%s_sql_decl no longer checks: the statements executed by spowtd/%s.py "
+                            "are not those the model was derived from: %s" % (m, m, " | ".join(what)[:700] or "(see lake build SqlTie.%s)" % name))
+    return problems
+
+
+def audit(theorems, timeout=3000, schema_groups=(), sql_modules=()):
     """Build the Lean project, grep for escape hatches, check axioms of `theorems`.
 
     Returns a dict: ok, build_ok, problems [...], axioms {thm: [..]}, cmd.
@@ -254,6 +275,11 @@ def audit(theorems, timeout=3000, schema_groups=()):
         if tie:
             out["ok"] = False
             out["problems"] += tie
+        tie2 = sql_tie(sql_modules)
+        out["sql_tie"] = {"modules": list(sql_modules), "ok": not tie2}
+        if tie2:
+            out["ok"] = False
+            out["problems"] += tie2
     return out
 
 
@@ -332,6 +358,11 @@ class Context:
         self.tier = tier
         self.seed = seed
         self.rng = random.Random((seed, prop).__repr__())
+        try:
+            from . import cli as _cli
+            _cli.DIALECT_RNG[0] = random.Random((seed, prop, "dialect").__repr__())
+        except Exception:  # noqa
+            pass
         self.t0 = time.time()
         self.counters = {}
         self.samples = []
@@ -423,6 +454,12 @@ class Context:
             "seed": self.seed, "tier": self.tier, "found_failing_input": found_failing_input,
         }
         doc.update(detail)
+        try:
+            from . import cli as _cli
+            if _cli.LAST_DIALECT[0] is not None:
+                doc["file_dialect_of_the_last_dataset_written"] = _cli.LAST_DIALECT[0]
+        except Exception:  # noqa
+            pass
         with open(path, "w") as fh:
             json.dump(doc, fh, indent=1, default=str)
         v = Violation(kind, obligation, detail, found_failing_input, path)
